@@ -477,5 +477,15 @@ def run(ctx: Ctx, rep: Report, tier: str):
     c.r7()
     c.r8()
     c.r9()
+    rep.rule("C09.R10", "a statement that fails with sqlite3.OperationalError is retried once on a fresh connection, still inside the mutex", expect_min=1)
+    ex = c.execf
+    hs = [h for t in ctx.own_nodes(ex) if isinstance(t, ast.Try) for h in t.handlers if h.type is not None and "OperationalError" in ast.unparse(h.type)]
+    good = bool(hs)
+    for h in hs:
+        calls = [x for b in h.body for x in ast.walk(b) if isinstance(x, ast.Call)]
+        rec = [x for x in calls if pat.match("self.__db_connect()", x) is not None]
+        rex = [x for x in calls if pat.match("self.db.execute($$$)", x) is not None]
+        good = good and bool(rec) and bool(rex) and c._inside_mutex(ex, rex[0]) and rec[0].lineno <= rex[0].lineno
+    rep.check("C09.R10", "__db_execute|reconnect", ex, good, "reconnect, then re-execute, under the mutex", "the reconnect-and-retry arm of __db_execute is gone or no longer re-executes the statement")
     rep.extra["sql_statements"] = [st.text for (_, _, st, _) in c.stmts]
     rep.assume("SQLite itself is durable and assigns INTEGER PRIMARY KEY row ids that are not in use")
